@@ -211,7 +211,16 @@ class SetEncoder(encoder.SequenceEncoder):
                 compsMap[id(component)] = namedType
                 comps.append((component, asn1Spec[idx]))
 
-        for comp, compType in sorted(comps, key=self._componentSortKey):
+        def outermostTag(componentAndType):
+            # X.690 10.3 / X.680 8.6: components are ordered by the tag
+            # they are written with, i.e. the outermost one
+            tagSet = self._componentSortKey(componentAndType)
+            if not tagSet:
+                return ()
+
+            return tagSet[-1].tagClass, tagSet[-1].tagId
+
+        for comp, compType in sorted(comps, key=outermostTag):
             namedType = compsMap[id(comp)]
 
             if namedType:
